@@ -59,15 +59,19 @@ theorem d_fromTable (table : List Arm) (ht : tableOK table = true) (v : String) 
   | none => exact CT_bad
   | some a =>
     simp only
-    cases hg : a.templates[i]? with
-    | none => exact CT_bad
-    | some t =>
-      simp only
-      apply d_segPieces
-      have ha : a ∈ table := List.mem_of_find?_eq_some hf
-      have htm : t ∈ a.templates := List.mem_of_getElem? hg
-      simp only [tableOK, List.all_eq_true] at ht
-      exact ht a ha t htm
+    cases hcmp : a.computed with
+    | true => simp only [↓reduceIte]; exact CT_bad
+    | false =>
+      simp only [Bool.false_eq_true, ↓reduceIte]
+      cases hg : a.templates[i]? with
+      | none => exact CT_bad
+      | some t =>
+        simp only
+        apply d_segPieces
+        have ha : a ∈ table := List.mem_of_find?_eq_some hf
+        have htm : t ∈ a.templates := List.mem_of_getElem? hg
+        simp only [tableOK, List.all_eq_true] at ht
+        exact ht a ha t htm
 
 theorem mysql_tableOK : tableOK SeaQ.Gen.ColTypes.mysql = true := by decide
 theorem postgres_tableOK : tableOK SeaQ.Gen.ColTypes.postgres = true := by decide
